@@ -3,6 +3,7 @@ import RTA.Lemmas.RrSound
 import RTA.Lemmas.BwSound
 import RTA.Lemmas.ExecRefine
 import RTA.Lemmas.ExecRunMeets
+import RTA.Lemmas.ExecEndToEnd
 import RTA.Spec.Ros2Exec
 /-! # C05 — the RTSS'21 round-robin-aware (rr) and busy-window-aware (bw) analyses are safe
 
@@ -22,8 +23,9 @@ schedule-level Spec, so the theorems hold for the transition system itself (`rr_
 `bw_safe_lts`).  The falsifier executes the Python twin of the transition system
 (cross-checked against the Lean definition by the driver op `exec`) against the real analyses.
 
-NOT proved: multi-callback subchains (chains inside the executor with propagated arrival
-curves) and workloads containing event-source callbacks; explored by the falsifier only. -/
+Outside the property (it speaks of singleton subchains of timers and polled callbacks) and
+not proved: multi-callback subchains and workloads containing event-source callbacks; the model
+of rr/bw covers them and the correspondence streams exercise them, no soundness theorem. -/
 
 namespace RTA.C05
 open RTA RTA.Spec
@@ -224,6 +226,48 @@ theorem bw_safe_run (cbs : List Exec.Cb) (sigma : Nat → Bool) (rels : Nat → 
       have := bw_safe_lts cbs sigma rels H hidx hfin hcb sup hs hsbf wl C hscalar hwf htask hkinds hprio hN
         hcost limit dbg hself j hj
       rwa [hji] at this) n
+
+/-- **C05, rr, end to end**: every hypothesis is on the INPUTS of the run — the workload `wl`
+describes the callback table (kinds, priorities, scalar costs), the releases
+(`Exec.relCount rels k t d` = releases of `k` in `[t, t + d)`) are within the arrival curves,
+the supply process delivers at least `sup.sbf` per window, the assumed bounds reproduce
+themselves — and the conclusion on the completions reported by the executable `Exec.run`. -/
+theorem rr_safe_end_to_end (cbs : List Exec.Cb) (sigma : Nat → Bool) (rels : Nat → List Nat) (H : Nat)
+    (hidx : ∀ t, ∀ i ∈ rels t, i < cbs.length) (hfin : ∀ t, H ≤ t → rels t = [])
+    (hcb : ∀ c ∈ cbs, 1 ≤ c.cost)
+    (sup : Supply) (hs : sup.WF) (hsbf : ∀ t d, sup.sbf d ≤ service sigma t d)
+    (wl : List Callback) (hlen : wl.length = cbs.length)
+    (hscalar : ∀ i, i < wl.length → (wl.getD i default).cost = .scalar (cbs.getD i default).cost)
+    (hwf : ∀ cb ∈ wl, cb.arr.WF)
+    (hkinds : Sched.KindsAgree wl (Exec.toInfo cbs sigma rels))
+    (hprio : ∀ i j, i < cbs.length → j < cbs.length → (cbs.getD i default).isTimer = false →
+      (cbs.getD j default).isTimer = false → (cbs.getD i default).prio = (cbs.getD j default).prio → i = j)
+    (hrel : ∀ k, k < cbs.length → ∀ t d, Exec.relCount rels k t d ≤ (wl.getD k default).arr.N d)
+    (limit : Nat)
+    (hself : ∀ i, i < wl.length → ∃ R, rrSubchain sup wl [i] limit = .ok R ∧ R ≤ (wl.getD i default).rtb)
+    (n i : Nat) :
+    ∀ o ∈ Exec.run cbs (fun _ => none) ((List.range n).map sigma) rels, o.1 = i →
+      o.2.2 ≤ o.2.1 + (wl.getD i default).rtb :=
+  Exec.rr_exec_sound cbs sigma rels H hidx hfin hcb sup hs hsbf wl hlen hscalar hwf hkinds hprio hrel limit hself n i
+
+/-- **C05, bw, end to end** -/
+theorem bw_safe_end_to_end (cbs : List Exec.Cb) (sigma : Nat → Bool) (rels : Nat → List Nat) (H : Nat)
+    (hidx : ∀ t, ∀ i ∈ rels t, i < cbs.length) (hfin : ∀ t, H ≤ t → rels t = [])
+    (hcb : ∀ c ∈ cbs, 1 ≤ c.cost)
+    (sup : Supply) (hs : sup.WF) (hsbf : ∀ t d, sup.sbf d ≤ service sigma t d)
+    (wl : List Callback) (hlen : wl.length = cbs.length)
+    (hscalar : ∀ i, i < wl.length → (wl.getD i default).cost = .scalar (cbs.getD i default).cost)
+    (hwf : ∀ cb ∈ wl, cb.arr.WF ∧ cb.arr.Exact)
+    (hkinds : Sched.KindsAgree wl (Exec.toInfo cbs sigma rels))
+    (hprio : ∀ i j, i < cbs.length → j < cbs.length → (cbs.getD i default).isTimer = false →
+      (cbs.getD j default).isTimer = false → (cbs.getD i default).prio = (cbs.getD j default).prio → i = j)
+    (hrel : ∀ k, k < cbs.length → ∀ t d, Exec.relCount rels k t d ≤ (wl.getD k default).arr.N d)
+    (limit : Nat) (dbg : Bool)
+    (hself : ∀ i, i < wl.length → ∃ R, bwSubchain sup wl [i] limit dbg = .ok R ∧ R ≤ (wl.getD i default).rtb)
+    (n i : Nat) :
+    ∀ o ∈ Exec.run cbs (fun _ => none) ((List.range n).map sigma) rels, o.1 = i →
+      o.2.2 ≤ o.2.1 + (wl.getD i default).rtb :=
+  Exec.bw_exec_sound cbs sigma rels H hidx hfin hcb sup hs hsbf wl hlen hscalar hwf hkinds hprio hrel limit dbg hself n i
 
 /-- analysis side: rr = naive linear-scan evaluation -/
 theorem rr_is_naive (s : Supply) (hs : s.WF) (wl : List Callback) (sub : List Nat) (limit : Nat)
